@@ -18,7 +18,7 @@ from ..ref import exact as X
 PROP = 'C19'
 CONFIGS = ['scipy']
 DECIDING = ['bezier.n_choose_k', 'bezier.bernstein', 'bezier.bezier_point', 'bezier.bezier2polynomial',
-            'bezier.polynomial2bezier', 'bezier.split_bezier', 'bezier.halve_bezier', 'polytools.polyroots',
+            'bezier.polynomial2bezier', 'bezier.split_bezier', 'bezier.halve_bezier', 'polytools.polyroots', 'polytools.polyroots01',
             'polytools.rational_limit']
 ANCHORED = ['n_choose_k', 'bernstein', 'bezier_point', 'bezier2polynomial', 'polynomial2bezier', 'split_bezier',
             'halve_bezier', 'polyroots', 'polyroots01', 'rational_limit']
@@ -243,7 +243,12 @@ def _judgeable_roots(coeffs, condition, realroots):
     return out, skips
 
 
-def post_polyroots(call):
+def post_polyroots01(call):
+    """polyroots01 = the real roots in [0, 1] (the oracle brings its own condition)"""
+    return post_polyroots(call, name='polyroots01', condition=lambda r: 0 <= r <= 1, realroots=True)
+
+
+def post_polyroots(call, name='polyroots', condition=None, realroots=None):
     ctx = core.CTX
     p = call.a.get('p')
     coeffs = _cplx_list(list(p))
@@ -255,8 +260,9 @@ def post_polyroots(call):
     big = max(abs(c) for c in coeffs)
     if big > 1e150 or big < 1e-150:
         return False
-    condition = call.a.get('condition')
-    realroots = call.a.get('realroots', False)
+    if condition is None:
+        condition = call.a.get('condition')
+        realroots = call.a.get('realroots', False)
     want, skips = _judgeable_roots(coeffs, condition, realroots)
     for k, v in skips.items():
         ctx.skip('root not judged: ' + k)
@@ -270,7 +276,7 @@ def post_polyroots(call):
         hits = sum(1 for v in ret if abs(complex(v) - r) <= 1e-7 * max(1.0, abs(r)))
         if hits != 1:
             kind = 'lost' if hits == 0 else 'reported-%d-times' % hits
-            ctx.violation('polyroots/%s/%s' % (kind, 'real' if realroots else 'all'),
+            ctx.violation('%s/%s/%s' % (name, kind, 'real' if realroots else 'all'),
                           'a simple, well-separated, well-conditioned real root satisfying the condition is %s' % kind,
                           {'coeffs': [repr(c) for c in coeffs], 'root': r, 'returned': [repr(v) for v in ret]})
             break
@@ -386,6 +392,7 @@ def install(ctx):
     monitor.install(B, 'split_bezier', post=post_split)
     monitor.install(B, 'halve_bezier', post=post_halve)
     monitor.install(T, 'polyroots', post=post_polyroots)
+    monitor.install(T, 'polyroots01', post=post_polyroots01)
     monitor.install(T, 'rational_limit', post=post_rational_limit, on_exc=exc_rational_limit)
 
 
